@@ -45,3 +45,5 @@ func c09boilerplate(path, buildTag, genBy string) ([]byte, error) {
 	a.GeneratedByCommentTemplate = genBy
 	return a.LoadGoBoilerplate()
 }
+
+func c09fileType() *generator.DefaultFileType { return generator.NewGolangFile() }
